@@ -27,6 +27,7 @@ Hypothesis Hn : w_nodes w h = Some n.
 Hypothesis Hname : n_name n' = n_name n.
 Hypothesis Htype : n_type n' = n_type n.
 Hypothesis Hkids : elem_ids (n_content n') = elem_ids (n_content n).
+Hypothesis Hchars : content_mode T (n_type n) = Val MCharacters -> chars_content (n_content n').
 (* h is not a SHORT-NAME element, or it is one that gives no element its name *)
 Hypothesis Hns : n_name n = SHORTN ->
   (forall j nj, w_nodes w j = Some nj -> hd_error (n_content nj) = Some (CElem h) -> named T (n_type nj) = false) /\
@@ -140,7 +141,7 @@ Proof.
       rewrite Hin. eapply I3; eauto; congruence.
     + destruct (N.eq_dec j h) as [->|Hne]; [congruence|]. rewrite edit_other in Hj by exact Hne. congruence.
   - intros j nj' Hj Hm. destruct (N.eq_dec j h) as [->|Hne].
-    + rewrite edit_self in Hj. injection Hj as <-. rewrite Hkids. rewrite Htype in Hm. eapply IL; eauto.
+    + rewrite edit_self in Hj. injection Hj as <-. rewrite Htype in Hm. auto.
     + rewrite edit_other in Hj by exact Hne. eapply IL; eauto.
   - intros m x Hx p i. rewrite pathset_edit. apply (I4 m x Hx).
   - intros m x Hx. apply (I5 m x Hx).
@@ -153,6 +154,7 @@ Definition edit_shape (w : world) (h : id) (w' : world) : Prop :=
   w' = w \/
   exists n n', w_nodes w h = Some n /\ n_name n' = n_name n /\ n_type n' = n_type n /\
     elem_ids (n_content n') = elem_ids (n_content n) /\
+    (content_mode T (n_type n) = Val MCharacters -> chars_content (n_content n')) /\
     (n_name n = SHORTN ->
        (forall j nj, w_nodes w j = Some nj -> hd_error (n_content nj) = Some (CElem h) -> named T (n_type nj) = false) /\
        (forall s, cdata_of T n' = Some (DString s) -> ~ In 47 s)) /\
@@ -163,7 +165,7 @@ Definition edit_shape (w : world) (h : id) (w' : world) : Prop :=
 
 Lemma edit_shape_inv04 w h w' : Inv04 w -> edit_shape w h w' -> Inv04 w'.
 Proof.
-  intros HI [->|(n & n' & Hn & H1 & H2 & H3 & H4 & H5 & ->)]; [exact HI|]. apply (inv04_edit_node w h n); auto.
+  intros HI [->|(n & n' & Hn & H1 & H2 & H3 & Hc & H4 & H5 & ->)]; [exact HI|]. apply (inv04_edit_node w h n); auto.
 Qed.
 
 (* ---------- list facts *)
@@ -260,8 +262,9 @@ Proof.
   apply set_node_inv in H as (_ & ->). right.
   exists n, (set_content n (insert_at (n_content n) (N.to_nat pos) (CData (DString text)))).
   split; [exact Hn|]. split; [reflexivity|]. split; [reflexivity|].
-  split; [|split; [|split; [|reflexivity]]].
+  split; [|split; [|split; [|split; [|reflexivity]]]].
   - cbn. apply elem_ids_insert_cdata.
+  - intros Hc. exfalso. rewrite Hc in Hv. unfold MCharacters, MMixed in Hv. discriminate Hv.
   - intros Hs. exfalso. rewrite (short_node_mode _ _ _ HI Hn Hs) in Hv. discriminate.
   - intros Hnm. cbn [Known04] in HK. destruct (N.eq_dec pos 0) as [->|Hp].
     + right. cbn in HK. unfold identifiable in HK. rewrite Hn in HK. split; [exact HK|].
@@ -288,8 +291,9 @@ Proof.
   apply set_node_inv in H as (_ & ->). right.
   exists n, (set_content n (remove_at (n_content n) (N.to_nat pos))).
   split; [exact Hn|]. split; [reflexivity|]. split; [reflexivity|].
-  split; [|split; [|split; [|reflexivity]]].
+  split; [|split; [|split; [|split; [|reflexivity]]]].
   - cbn. eapply elem_ids_remove_cdata; eauto.
+  - intros Hc. exfalso. rewrite Hc in Hv. unfold MCharacters, MMixed in Hv. discriminate Hv.
   - intros Hs. exfalso. rewrite (short_node_mode _ _ _ HI Hn Hs) in Hv. discriminate.
   - intros Hnm. cbn [Known04] in HK. destruct (N.eq_dec pos 0) as [->|Hp].
     + right. cbn in En. destruct (n_content n) as [|it rest] eqn:Ec; [discriminate|]. injection En as ->.
@@ -326,8 +330,9 @@ Proof.
   pose proof (Hoo _ _ _ E) as Ho. assert (HI1 : Inv04 w0) by (eapply OO_inv04; eauto).
   assert (Hn1 : w_nodes w0 h = Some n) by (destruct Ho as (-> & _); exact Hn).
   apply modify_node_inv in H as (n1 & Hn1' & _ & ->). rewrite Hn1 in Hn1'. injection Hn1' as <-.
-  assert (Hl : elem_ids (n_content n) = []) by (eapply (i4_leaf _ _ _ HI); eauto).
+  assert (Hl : elem_ids (n_content n) = []) by (apply chars_content_elems; eapply (i4_leaf _ _ _ HI); eauto).
   apply (inv04_edit_node w0 h n); auto.
+  - intros _. left. reflexivity.
   - intros Hs. contradiction.
   - intros _. right. split; [apply hd_no_elem_not_identifiable; exact Hl|].
     apply hd_no_elem_not_identifiable. reflexivity.
@@ -347,7 +352,7 @@ Proof.
   match type of H with (if negb ?c then _ else _) _ = _ => destruct c eqn:Emode end; cbn [negb] in H; [|winv H; exact HI].
   assert (Hleaf : elem_ids (n_content n) = []).
   { apply orb_true_iff in Emode as [Em|Em].
-    - apply N.eqb_eq in Em. subst mode. eapply (i4_leaf _ _ _ HI); eauto.
+    - apply N.eqb_eq in Em. subst mode. apply chars_content_elems; eapply (i4_leaf _ _ _ HI); eauto.
     - apply andb_true_iff in Em as (_ & Em). apply negb_true_iff in Em. apply no_elem_ids. exact Em. }
   wval H spec Hspec. destruct spec as [cs|]; [|winv H; exact HI].
   wbind_ro H m Em; [|exact HI]. wbind_ro H ver Ever; [|exact HI]. wval H ok0 Hok0.
@@ -369,6 +374,7 @@ Proof.
   apply set_node_inv in E1 as (_ & ->). fold (edit_world w h n') in H.
   assert (HI1 : Inv04 (edit_world w h n')).
   { apply (inv04_edit_node w h n); auto.
+    - intros _. right. eexists. reflexivity.
     - intros Hs. apply N.eqb_eq in Hs as Hsb. rewrite Hsb in Hpl. cbn [andb] in Hpl. destruct cd0; [discriminate|].
       split.
       + intros j nj Hj Hhd. destruct (named T (n_type nj)) eqn:Enm; [|reflexivity]. exfalso.
@@ -423,9 +429,10 @@ Proof.
   wval H spec Hspec. destruct spec as [cs|]; [|winv H; exact HI2].
   wval H ok Hok. destruct ok; [|winv H; exact HI2].
   apply set_node_inv in H as (_ & ->).
-  assert (Hleaf : elem_ids (n_content n2) = []) by (eapply (i4_leaf _ _ _ HI2); eauto).
+  assert (Hleaf : elem_ids (n_content n2) = []) by (apply chars_content_elems; eapply (i4_leaf _ _ _ HI2); eauto).
   apply (inv04_edit_node w2 h n2); auto.
   - cbn. rewrite Hleaf. apply elem_ids_set_head. exact Hleaf.
+  - intros Hc. cbn. destruct (i4_leaf _ _ _ HI2 _ _ Hn2' Hc) as [->|(d0 & ->)]; right; eexists; reflexivity.
   - intros Hs. exfalso. rewrite Hnm in Hs. destruct (i4_short _ _ _ HI _ _ Hn Hs) as (_ & Hr & _). congruence.
   - intros _. right. split; [apply hd_no_elem_not_identifiable; exact Hleaf|].
     apply hd_no_elem_not_identifiable. cbn. apply elem_ids_set_head. exact Hleaf.
